@@ -123,6 +123,9 @@ EmbedShapes == <<
   Shape("e.val.in.val", Desc(<<Msg("Inner", <<Fld("Num", 1, "int32")>>, <<>>),
         Msg("Outer", <<Fld("Str", 1, "string"), NonNull(Embed(MsgF("Inner", 2, "Inner")))>>, <<>>),
         Msg("Root", <<NonNull(Embed(MsgF("Outer", 1, "Outer"))), Fld("Flag", 2, "bool")>>, <<>>)>>), BaseCfg),
+  \* a pointer scalar below a nullable embedded message (two nil checks in a row)
+  Shape("e.ptr.time", Desc(<<Msg("Inner", <<StdTime("When", 1), Fld("Str", 2, "string")>>, <<>>),
+        Msg("Root", <<Fld("Num", 1, "int32"), Embed(MsgF("Inner", 2, "Inner"))>>, <<>>)>>), BaseCfg),
   \* a message embedded into a message that is used twice below the root
   Shape("e.below", Desc(<<Leaf, Msg("Outer", <<NonNull(Embed(MsgF("Leaf", 1, "Leaf"))), Fld("Num", 2, "int32")>>, <<>>),
         Msg("Root", <<MsgF("Sub", 1, "Outer"), MsgF("Sub2", 2, "Outer")>>, <<>>)>>), BaseCfg) >>
@@ -153,7 +156,16 @@ ResetExtraShapes == <<
   Shape("r.excluded", Desc(<<Leaf, Msg("Root", <<Fld("Str", 1, "string"), Fld("Extra", 2, "string"), MsgF("Sub", 3, "Leaf"), Rep(Fld("Items", 4, "int32"))>>, <<>>)>>),
         [BaseCfg EXCEPT !.exclude = <<"Root.Extra", "Root.Items">>]) >>
 
-AllSessionShapes == ScalarShapes \o ListShapes \o MapShapes \o ObjShapes \o OneofShapes \o EmbedShapes \o EmptyShapes \o DeepShapes \o PairShapes
+\* schema flags and metadata never change what the converters do
+FlagShapes == <<
+  Shape("f.flags", Desc(<<Leaf, Msg("Root", <<Fld("Str", 1, "string"), StdTime("When", 2), Fld("Num", 3, "int32"), Rep(Fld("Items", 4, "string")),
+                                              MsgF("Sub", 5, "Leaf")>>, <<>>)>>),
+        [BaseCfg EXCEPT !.required = <<"Root.Str", "Root.When", "Root.Sub">>, !.computed = <<"Root.Num", "Root.Items", "Leaf.Str">>,
+                        !.sensitive = <<"Root.Sub.Str", "Root.Num">>, !.usfu = TRUE,
+                        !.validators = <<[k |-> "Root.Str", v |-> <<"1">>], [k |-> "Root.Items", v |-> <<"2">>]>>,
+                        !.planmodifiers = <<[k |-> "Root.When", v |-> <<"1">>]>>]) >>
+
+AllSessionShapes == ScalarShapes \o ListShapes \o MapShapes \o ObjShapes \o OneofShapes \o EmbedShapes \o EmptyShapes \o DeepShapes \o PairShapes \o FlagShapes
 \* refresh histories are quadratic / cubic in the number of values: one shape per kind of coupling
 RefreshShapes == ScalarShapes \o ListShapes \o MapShapes \o ObjShapes \o OneofShapes \o EmbedShapes \o EmptyShapes \o PairShapes
 =============================================================================
